@@ -492,54 +492,49 @@ _NOTE = ("Trusted: Coq kernel, extraction (ExtrOcamlBasic), ocaml/Pop_driver.ml,
          "finalization and save/load are outside this model.")
 _TECH = "Coq proof (induction over op histories, invariants) + extraction-based differential correspondence + direct oracles"
 META_C02 = {
-    "text": "Theorems (Coq, closed under the global context; all trees, payload assignments, failing positions (n,k)): "
-            "CommandGroup::execute is atomic and unExecute its exact inverse; applyBlock is atomic (a failing k-th group of "
-            "any block leaves P, the applied counter and the tip untouched and changes only FAILED_POP/FAILED_CHILD marks); "
-            "applyBlock followed by unapplyBlock restores P exactly. C02_setState_atomic (full on the applied set): from "
-            "every state reachable by connectBlock/setState histories, setState true => target is tip and EXACTLY root..target "
-            "is flagged applied (counting argument over the as-coded applied-block counter), false => tip, counter and the "
-            "applied flag of every block are exactly what they were and P is unchanged as a multiset "
-            "(C02_setState_failure_unchanged). After setState / comparePopScore with ANY outcome from any reachable state P is "
-            "exactly the bootstrap state plus the effects of the blocks flagged applied. _partial "
-            "(C02_setState_atomic_partial, C02_compare_atomic_partial; full statements in coq/Properties_C02.v): not proved that "
-            "validity marks change only on the target branch during the walk, that no assert (Abort) is reachable, and that "
-            "after comparePopScore the applied flags are root..tip. Those parts are covered by the direct oracle on the "
-            "implementation (full ALT/VBK/BTC snapshot before/after every call with the allowance of DESIGN section 7, under "
-            "enumeration of the failing group position) and by the step-by-step correspondence with the extracted model.",
+    "text": "Theorems (Coq, closed under the global context; all trees, payload assignments, failing positions (n,k), scorers, "
+            "histories): every state reachable by connectBlock / setState / comparePopScore is 'quiet' (tree well formed, tip "
+            "applied, appliedBlockCount = length of root..tip) and in a quiet state EXACTLY root..tip is flagged applied "
+            "(counting argument over the as-coded counter). CommandGroup::execute and applyBlock are atomic (exact equality of "
+            "P; only FAILED_POP/FAILED_CHILD marks change), unExecute/unapplyBlock are exact inverses. "
+            "C02_setState_atomic_partial: true => target is tip, exactly root..target applied; false => tip, counter, the "
+            "applied flag of every block unchanged and P unchanged as a multiset. C02_compare_atomic_partial: result >= 0 => "
+            "tip, counter, applied flags and P unchanged; result < 0 => candidate is tip, exactly root..candidate applied. "
+            "_partial because two clauses of the property are not proved (kept in coq/Properties_C02.v): validity marks change "
+            "only on the target/candidate branch during the walks (proved for a single applyBlock), and no assert (Abort) of the "
+            "modelled code is reachable. Those are covered by the direct oracle on the implementation (full ALT/VBK/BTC "
+            "snapshot before/after every call with the allowance of DESIGN section 7, under enumeration of the failing group "
+            "position) and by the step-by-step correspondence with the extracted model.",
     "note": _NOTE, "technique": _TECH,
 }
 META_C01 = {
-    "text": "Theorems (Coq, closed): every command of the reference-count machine has an exact inverse; "
-            "C01_applied_canonical: in EVERY state reachable by any history of connectBlock / setState / comparePopScore "
-            "(any scorer) over any tree with any payloads, P = bootstrap state + exactly the effects of the blocks flagged "
-            "applied (reference counts and endorsement multiset) - nothing of an abandoned or rolled-back fork is left; "
-            "C01_history_independence: two histories of connectBlock/setState calls (any forks activated and abandoned, failing "
-            "switches, back and forth) ending with the same active chain (same payloads on root..tip) give the same reference "
-            "count for every SP block and the same endorsements - the fresh instance shown only the final chain is one of "
-            "them. _partial (C01_history_independence_partial): for histories that also contain comparePopScore the statement "
-            "is proved relative to the set of blocks flagged applied, not yet relative to the active chain. Verdict and payout "
-            "equality are checked on the implementation by the twin oracle (history vs fresh instance: POP projection of the "
-            "ALT/VBK/BTC views, payouts, comparePopScore against shown candidates), not proved (scoring is property C03).",
+    "text": "Theorems (Coq, closed): every command of the reference-count machine has an exact inverse; for EVERY state "
+            "reachable by any history of connectBlock / setState / comparePopScore (any scorer) over any tree with any "
+            "payloads: P = bootstrap state + exactly the effects of the blocks flagged applied (C01_applied_canonical), those "
+            "blocks are exactly root..tip (C01_applied_exactly), hence two histories ending with the same active chain (same "
+            "payloads on root..tip) give the same reference count for every SP block and the same endorsement multiset "
+            "(C01_history_independence_partial) - the fresh instance shown only the final chain is one such history. "
+            "_partial because payouts and the comparePopScore verdict (functions of P and the chain outside this model, "
+            "properties C14/C03) are not proved equal; that part is checked on the implementation by the twin oracle (history "
+            "vs fresh instance: POP projection of the ALT/VBK/BTC views, getPopPayout, comparePopScore against shown candidates).",
     "note": _NOTE, "technique": _TECH,
 }
 META_C20 = {
-    "text": "Theorems (Coq, closed): C20_full_validity_truthful - in every state reachable by a history of connectBlock / "
-            "setState calls (any tree, payloads, failing switches, back and forth) every block at level CAN_BE_APPLIED replays "
-            "successfully ALONE: the bodies of root..b executed from the bootstrap state all succeed (invariant over all "
-            "block-level steps; the as-coded counter check + a counting argument show that exactly root..parent is applied "
-            "when the level is raised, and success of a command group does not depend on the order of P). For ALL states, "
-            "also inside comparisons: the fully-valid level is raised only on a fully valid parent and only when the "
-            "applied-block counter equals the block's height above the root (C20_full_validity_truthful_partial); a block "
-            "applied next to another chain or on a MAYBE parent is never reported fully valid by that application "
-            "(C20_maybe_level_never_reported_full); unapplyBlock only runs on an applied block with applied parent and no "
-            "applied child (C20_unapply_order). _partial: truthfulness for histories that also contain comparePopScore, and "
-            "re-activation itself (setState b succeeds from every reachable state; needs FAILED_CHILD/level coherence and "
-            "Abort-freedom of the walk) are not proved (statements kept in coq/Properties_C20.v). They are checked on the "
+    "text": "Theorems (Coq, closed): C20_full_validity_truthful - in EVERY reachable state (any history of connectBlock / "
+            "setState / comparePopScore with any scorer, any tree, payloads, failing positions) every block at level "
+            "CAN_BE_APPLIED replays successfully ALONE: the bodies of root..b executed from the bootstrap state all succeed "
+            "(invariant over all block-level steps, also inside comparisons; the as-coded counter check + a counting argument "
+            "show that exactly root..parent is applied when the level is raised, and success of a command group does not depend "
+            "on the order of P). For all states: the fully-valid level is raised only on a fully valid parent and only when the "
+            "counter equals the block's height above the root (C20_full_level_guard); a block applied next to another chain or "
+            "on a MAYBE parent is never reported fully valid by that application (C20_maybe_level_never_reported_full); "
+            "unapplyBlock only runs on an applied block with applied parent and no applied child (C20_unapply_order). "
+            "_partial (C20_reactivation_partial): that setState to such a block actually returns true from every reachable "
+            "state (needs FAILED_CHILD/level coherence and Abort-freedom of the walk) is not proved; checked on the "
             "implementation: every block that ever reported full validity or won a setState/compare is re-activated at random "
-            "later points (histories with planted invalid payloads, candidates valid only thanks to the competing chain, "
+            "later points (planted invalid payloads, candidates valid only thanks to the competing chain, "
             "invalidate/revalidate/remove); the apply/unapply event trace of the real PopStateMachine (guarded hook) is checked "
-            "against the documented discipline (applied parent, tip-first unapply, unvalidated blocks unapplied before the blocks "
-            "applied earlier, first full validity only on the single applied chain); the model's validity levels are compared exactly.",
+            "against the documented discipline; the model's validity levels are compared exactly.",
     "note": _NOTE + " The trace part uses the guarded hook veriblock/pop/verif_hooks.hpp (popTraceHook) when the repo provides it.",
     "technique": _TECH,
 }
